@@ -234,7 +234,7 @@ def node_key(node, parent, ref):
     return ("slot", id(parent) if parent is not None else None, ref)
 
 
-def node_at(root, addr):
+def node_at(root, addr, anchors=None):
     """(node, parent, ref) at a model address in the real document; None if the address does not exist."""
     from ruamel.yaml.comments import CommentedSet
     node, parent, ref = root, None, None
@@ -260,16 +260,19 @@ def node_at(root, addr):
                 return None
             ref, node = found[0], found[0]
         elif t == "r":
-            if not hasattr(node, "merge") or x >= len(node.merge):
+            # the x-th merge reference that all_anchors knows by name (the model's `refs` list)
+            named = [r for (_, r) in (node.merge if hasattr(node, "merge") else [])
+                     for nm, n in (anchors or {}).items() if n is r]
+            if x >= len(named):
                 return None
-            ref, node = ("mref", x), node.merge[x][1]
+            ref, node = ("mref", x), named[x]
         else:
             return None
     return node, parent, ref
 
 
-def key_of_addr(root, addr):
-    r = node_at(root, addr)
+def key_of_addr(root, addr, anchors=None):
+    r = node_at(root, addr, anchors)
     if r is None:
         return None
     node, parent, ref = r
@@ -356,14 +359,18 @@ def wf_key_text(k):
     return t != "" and "*" not in t and not t.startswith("&") and not all(c in ctl for c in t)
 
 
-def gen_doc(rng, depth=3, odd=0.12, merge_p=0.25):
+def gen_doc(rng, depth=3, odd=0.10, merge_p=0.5):
     """Random source document with anchors, aliases, anchored keys, merge keys, sets."""
-    st = {"nodes": {}, "keys": {}, "n": 0}       # anchor name -> source JSON ; key anchor -> key
+    st = {"nodes": {}, "keys": {}, "n": 0, "reserved": set()}       # anchor name -> source JSON ; key anchor -> key
 
     def fresh():
         pool = ANCHOR_NAMES + (ODD_ANCHOR_NAMES if rng.random() < odd else [])
-        cand = [a for a in pool if a not in st["nodes"] and a not in st["keys"]]
-        return rng.choice(cand) if cand else None
+        cand = [a for a in pool if a not in st["nodes"] and a not in st["keys"] and a not in st["reserved"]]
+        if not cand:
+            return None
+        a = rng.choice(cand)
+        st["reserved"].add(a)        # a name is given out once (an enclosing node is registered only when complete)
+        return a
 
     def key(used):
         for _ in range(20):
@@ -403,16 +410,18 @@ def gen_doc(rng, depth=3, odd=0.12, merge_p=0.25):
 
     def node(d):
         r = rng.random()
-        if d <= 0 or r < 0.36:
+        if d < depth and (d <= 0 or r < 0.30):
             return scalar()
-        if st["nodes"] and r < 0.46:
+        if st["nodes"] and r < 0.42:
             return dict_copy(st["nodes"][rng.choice(sorted(st["nodes"]))])
-        a = fresh() if rng.random() < 0.3 else None
-        if r < 0.66:
-            j = L(*[node(d - 1) for _ in range(rng.randint(0, 3))])
-        elif r < 0.92:
+        n_children = rng.choice([0, 1, 2, 2, 3, 3, 4]) if d < depth else rng.choice([2, 3, 3, 4, 5])
+        if r < 0.64:
+            a = fresh() if rng.random() < 0.3 else None
+            j = L(*[node(d - 1) for _ in range(n_children)])
+        elif r < 0.93:
+            a = fresh() if rng.random() < 0.45 else None
             used, es = [], []
-            for _ in range(rng.randint(0, 3)):
+            for _ in range(n_children):
                 k, ka = akey(used)
                 used.append(k)
                 es.append([k, node(d - 1), ka] if ka else [k, node(d - 1)])
@@ -421,6 +430,7 @@ def gen_doc(rng, depth=3, odd=0.12, merge_p=0.25):
             if maps and rng.random() < merge_p:
                 j["merge"] = rng.sample(sorted(maps), 1 if rng.random() < 0.8 else min(2, len(maps)))
         else:
+            a = fresh() if rng.random() < 0.2 else None
             used, ms = [], []
             for _ in range(rng.randint(0, 3)):
                 k, ka = akey(used)
